@@ -10,7 +10,7 @@ use crate::engine::*;
 use crate::gen::{self, FCfg, FEnv};
 use crate::model::{BuildErr, Net};
 use crate::props::c05::{style_of, LEX_CHARS};
-use crate::props::c07::inject;
+use crate::props::c07::inject_named;
 use crate::refparse;
 use crate::render::{render, Choices};
 use crate::sem::*;
@@ -217,7 +217,15 @@ impl Property for C14 {
         let depth = fs.iter().map(|f| f.quant_depth()).max().unwrap_or(0);
         if let Some((kind, pos)) = raw.inject {
             let i = gen::idx(pos, fs.len());
-            if let Some(g) = inject(&fs[i], kind, pos.rotate_left(5)) {
+            // unknown propositions: an ordinary name, names of the graph's spare symbolic variables
+            // (they exist as BDD variables but are not network variables), a near-constant
+            let unknown = match pos % 5 {
+                0 | 1 => "no_such_variable".to_string(),
+                2 => format!("{}_extra_0", props[0]),
+                3 => format!("{}_extra_{}", props[props.len() - 1], (pos / 5) % 3),
+                _ => "true_1".to_string(),
+            };
+            if let Some(g) = inject_named(&fs[i], kind, pos.rotate_left(5), &unknown) {
                 fs[i] = g;
             }
         }
